@@ -176,7 +176,11 @@ func TestC07Exhaustive(t *testing.T) {
 		}
 		for _, n := range names {
 			c := MatchCase{p, n}
-			v, info := runMatch(t, c)
+			var info h.Info
+			v := h.Safely(func() *h.Violation { vv, ii := runMatch(t, c); info = ii; return vv })
+			if v != nil && v.Sig == "panic" {
+				v.Clause, v.Detail = "evaluation-never-panics", fmt.Sprintf("Secret(%q).Match(%q): %s", p, n, v.Detail)
+			}
 			evals++
 			if info.NonTrivial {
 				nt++
